@@ -10,7 +10,17 @@ let opt f = function None -> "NONE" | Some x -> f x
 let k_of s = n_of_int (int_of_string s)
 
 let () =
-  register "c04.dbp_enc" (function [k; xs] -> tok_of_bytes (Model.enc (k_of k) (zlist xs)) | _ -> failwith "args");
+  register "c04.dbp_enc" (function [k; xs] -> tok_of_bytes (Model.enc_fast (k_of k) (zlist xs)) | _ -> failwith "args");
+  (* (the encoders run are those of Enc/DeltaBPFast.v, proved to write the bytes of DeltaBP.enc_g / enc,
+     dlba_enc(_g), dba_enc(_g): DeltaBPFastProofs.enc_f_eq, enc_fast_eq, ...; the BYTE_STREAM_SPLIT decoder
+     is PlainFast.bss_dec_fast = Plain.bss_dec: Properties/C04.v, C04_oracle_fast_functions) *)
+  (* the encoder at any geometry: c04.dbp_enc_g <block size> <mini-blocks> <32|64> <values> *)
+  let nat s = nat_of_int (int_of_string s) in
+  register "c04.dbp_enc_g" (function [bs; nmb; k; xs] -> tok_of_bytes (Model.enc_f (nat bs) (nat nmb) (k_of k) (zlist xs)) | _ -> failwith "args");
+  register "c04.dlba_enc_g" (function [bs; nmb; vs] -> tok_of_bytes (Model.dlba_enc_f (nat bs) (nat nmb) (blist vs)) | _ -> failwith "args");
+  (* c04.dba_enc_g <prefix cap> <bs prefixes> <nmb prefixes> <bs suffixes> <nmb suffixes> <values> *)
+  register "c04.dba_enc_g" (function [cap; bs1; nmb1; bs2; nmb2; vs] ->
+      tok_of_bytes (Model.dba_enc_f (nat cap) (nat bs1) (nat nmb1) (nat bs2) (nat nmb2) (blist vs)) | _ -> failwith "args");
   register "c04.dbp_dec" (function [k; b] ->
       opt (fun (xs, rest) -> out_zlist xs ^ " " ^ tok_of_bytes rest) (Model.dec (k_of k) (bytes_of_tok b)) | _ -> failwith "args");
   register "c04.rle_levels" (function [w; xs] -> opt tok_of_bytes (Model.enc_levels (k_of w) (nlist xs)) | _ -> failwith "args");
@@ -30,10 +40,10 @@ let () =
   register "c04.plain_bool" (function [bits] -> tok_of_bytes (Model.plain_boolean (nlist bits)) | _ -> failwith "args");
   register "c04.plain_bool_dec" (function [n; b] -> opt out_nlist (Model.dec_plain_boolean (nat_of_int (int_of_string n)) (bytes_of_tok b)) | _ -> failwith "args");
   register "c04.bss_enc" (function [k; vs] -> tok_of_bytes (Model.bss_enc (nat_of_int (int_of_string k)) (blist vs)) | _ -> failwith "args");
-  register "c04.bss_dec" (function [k; b] -> opt out_blist (Model.bss_dec (nat_of_int (int_of_string k)) (bytes_of_tok b)) | _ -> failwith "args");
-  register "c04.dlba_enc" (function [vs] -> tok_of_bytes (Model.dlba_enc (blist vs)) | _ -> failwith "args");
+  register "c04.bss_dec" (function [k; b] -> opt out_blist (Model.bss_dec_fast (nat_of_int (int_of_string k)) (bytes_of_tok b)) | _ -> failwith "args");
+  register "c04.dlba_enc" (function [vs] -> tok_of_bytes (Model.dlba_enc_fast (blist vs)) | _ -> failwith "args");
   register "c04.dlba_dec" (function [b] -> opt out_blist (Model.dlba_dec (bytes_of_tok b)) | _ -> failwith "args");
-  register "c04.dba_enc" (function [vs] -> tok_of_bytes (Model.dba_enc (blist vs)) | _ -> failwith "args");
+  register "c04.dba_enc" (function [vs] -> tok_of_bytes (Model.dba_enc_fast (blist vs)) | _ -> failwith "args");
   register "c04.dba_dec" (function [b] -> opt out_blist (Model.dba_dec (bytes_of_tok b)) | _ -> failwith "args");
   (* models of the Go decoders: answer "GOK <values>", "GERR" or "GPANIC" *)
   let gres f = function Model.GOk x -> "GOK " ^ f x | Model.GErr -> "GERR" | Model.GPanic -> "GPANIC" in
